@@ -320,6 +320,54 @@ def direct_oracle(texts, lines, owner, outs):
     return fails
 
 
+def canon_jdn(b):
+    """canonicalise %j text: inside every { } / @{ } sort the (key value) pairs (slot order is hashing, C03/C04); everything
+    else byte for byte.  Returns None if the text is not well formed."""
+    def item(i):
+        if i >= len(b):
+            raise ValueError
+        c = b[i:i + 1]
+        if c == b"@" and b[i + 1:i + 2] in (b"[", b"{", b"(", b'"'):
+            t, j = item(i + 1)
+            return b"@" + t, j
+        if c == b'"':
+            j = i + 1
+            while b[j:j + 1] != b'"':
+                j += 2 if b[j:j + 1] == b"\\" else 1
+                if j >= len(b):
+                    raise ValueError
+            return b[i:j + 1], j + 1
+        if c in (b"(", b"[", b"{"):
+            close = {b"(": b")", b"[": b"]", b"{": b"}"}[c]
+            items = []
+            j = i + 1
+            while b[j:j + 1] != close:
+                if b[j:j + 1] == b" ":
+                    j += 1
+                    continue
+                t, j = item(j)
+                items.append(t)
+                if j >= len(b):
+                    raise ValueError
+            if c == b"{":
+                if len(items) % 2:
+                    raise ValueError
+                pairs = sorted(items[k] + b" " + items[k + 1] for k in range(0, len(items), 2))
+                return b"{" + b" ".join(pairs) + b"}", j + 1
+            return c + b" ".join(items) + close, j + 1
+        j = i
+        while j < len(b) and b[j:j + 1] not in (b" ", b")", b"]", b"}"):
+            j += 1
+        if j == i:
+            raise ValueError
+        return b[i:j], j
+    try:
+        t, j = item(0)
+        return t if j == len(b) else None
+    except (ValueError, IndexError):
+        return None
+
+
 def subterms(toks):
     """all complete subterms of a term token list (for minimising a round-trip failure)"""
     out = []
@@ -537,7 +585,19 @@ def run(ctx, replay_lines=None):
         jo_impl, _ = run_harness(hx, jl)
         jo_model = ctx.model(jl, exe=exe)
         for l, a, b in zip(jl, jo_impl or [], jo_model):
-            if a.split(" ")[0] != b.split(" ")[0] and not (b == "skip"):
+            a0, b0 = a.split(" ")[0], b.split(" ")[0]
+            if b == "skip":
+                rt_stats["printer-skip"] += 1
+                continue
+            rt_stats["printer-compared"] += 1
+            if a0 == b0:
+                continue
+            rt_stats["printer-compared-modulo-dict-order"] += 1
+            try:
+                ca, cb = canon_jdn(bytes.fromhex(a0)), canon_jdn(bytes.fromhex(b0))
+            except ValueError:
+                ca, cb = None, 0
+            if ca is None or ca != cb:
                 pdiffs.append({"case": l, "impl": a, "model": b})
         if pdiffs:
             broken.append("correspondence %%j printer model/impl: %d differing of %d, first %s" % (len(pdiffs), len(jl), json.dumps(pdiffs[:1])[:500]))
